@@ -259,6 +259,47 @@ func signSet(k kref, set []dns.RR) *dns.RRSIG {
 	return sig
 }
 
+// timedSig is a cryptographically sound RRSIG over the root DNSKEY RRset whose validity window
+// is given in seconds relative to now (ts=<keyref>/<notBefore>/<notAfter>,...).
+type timedSig struct {
+	key              kref
+	notBefore, after int64
+}
+
+func (t timedSig) valid() bool { return t.notBefore <= 0 && 0 <= t.after }
+
+func parseTimed(s string) []timedSig {
+	var out []timedSig
+	for _, e := range strings.Split(s, ",") {
+		p := strings.Split(e, "/")
+		if len(p) != 3 {
+			panic("bad ts= entry " + e)
+		}
+		out = append(out, timedSig{key: parseRef(p[0]), notBefore: vlib.AtoI64(p[1]), after: vlib.AtoI64(p[2])})
+	}
+	return out
+}
+
+// timedRRSIGs signs the root DNSKEY RRset with each window.
+func timedRRSIGs(fetch []kref, timed []timedSig) []dns.RR {
+	var set, out []dns.RR
+	for _, k := range fetch {
+		set = append(set, k.rr())
+	}
+	if len(set) == 0 {
+		return nil
+	}
+	now := time.Now()
+	for _, t := range timed {
+		sig := newSig(t.key, now.Add(time.Duration(t.notBefore)*time.Second), now.Add(time.Duration(t.after)*time.Second))
+		if err := sig.Sign(getKey(t.key.id).signer(), set); err != nil {
+			panic(err)
+		}
+		out = append(out, sig)
+	}
+	return out
+}
+
 func buildAnswer(fetch, signers []kref, bad []badSig, extras ...extra) []dns.RR {
 	out := buildRootSet(fetch, signers, bad)
 	for i, e := range extras {
